@@ -66,6 +66,30 @@ def run(ctx):
     ctx.cov["held_searcher_rereads_judged"] = nheld
     log(f"[T] {len(runs)} runs with reader threads: {nrel} reloads, {nheld} re-reads of held searchers, {n} runs accepted")
 
+    # warmers: every reader thread registers a logging Warmer; the published searcher was warmed, and the
+    # warmers' background collection never names a generation dead while the thread holds a searcher of it
+    vlib.mc_check(ctx, "WarmProto", "WarmProto.cfg", timeout=300, workers=2)
+    vlib.mc_check(ctx, "WarmProto", "WarmProto_neg.cfg", expect_violation="NeverDiscardHeld", timeout=120, workers=2)
+    wruns = []
+    for r in vlib.split_runs(ev):
+        out = []
+        for e in r:
+            if e.get("ev") in ("reset", "warm", "warm_gc", "hold", "release", "reload"):
+                x = {k: v for k, v in e.items() if k in ("ev", "r", "sgen", "live", "ok")}
+                if e["ev"] == "reload" and not e.get("ok"):
+                    x.pop("sgen", None)
+                out.append(x)
+        wruns.append(out)
+    ngc = sum(1 for r in wruns for e in r if e["ev"] == "warm_gc")
+    n3 = tracecheck.validate_runs(ctx, wruns, "warm", "WarmTrace", "WarmTrace.cfg",
+                                  key=lambda r: json.dumps([[e["ev"], e.get("r"), e.get("sgen"), e.get("live")] for e in r if e["ev"] != "warm"])[:3000],
+                                  nontrivial=lambda r: any(e["ev"] == "warm_gc" for e in r), timeout=300)
+    ctx.cov["traces_validated_against_impl"] += n3
+    ctx.cov["warmer_collections_judged"] = ngc
+    log(f"[T] warmers: {sum(1 for r in wruns for e in r if e['ev'] == 'warm')} warm calls, {ngc} collections while searchers were held, {n3}/{len(wruns)} runs accepted by WarmTrace")
+    if ngc == 0:
+        raise vlib.ToolError("no warmer collection was observed (the lingering run did not happen)")
+
     gp = ctx.path("gated.ndjson")
     vlib.run_bin("reader_driver", ["gated", "--seed", ctx.seed, "--runs", 10 if ctx.quick else 100, "--out", gp], timeout=900)
     gev = vlib.read_ndjson(gp)
